@@ -83,10 +83,12 @@ def _pin_to_span(ctx, p, U, inner, n, j, where):
 # ------------------------------------------------------------------------------------------------
 # span search
 # ------------------------------------------------------------------------------------------------
-def _span_shapes(pmax, kmax):
+def _span_shapes(pmax, kmax, pdeep, kdeep):
+    """degrees 1..pmax with up to kmax interior knots; degrees 1..pdeep with up to kdeep (the binary search needs at
+    least 3 interior knots before it ever moves upwards from its first midpoint)"""
     out = []
     for p in range(1, pmax + 1):
-        for mult in _patterns(p, kmax):
+        for mult in _patterns(p, kdeep if p <= pdeep else kmax):
             for clamped in (True, False):
                 for search in ('linear', 'binsearch'):
                     out.append(dict(p=p, mult=mult, clamped=clamped, search=search))
@@ -94,7 +96,7 @@ def _span_shapes(pmax, kmax):
 
 
 @scenario('C03', fns=['helpers.find_span_linear', 'helpers.find_span_binsearch', 'helpers.find_spans'],
-          quick=lambda: _span_shapes(4, 2), thorough=lambda: _span_shapes(7, 4))
+          quick=lambda: _span_shapes(4, 2, 3, 4), thorough=lambda: _span_shapes(7, 4, 3, 6))
 def find_span(ctx, p, mult, clamped, search):
     """requires valid_kv with symbolic end and interior knots, u anywhere in [U[p], U[n]];
                 binsearch only: distinct knots more than 1e-5 apart and u == U[n] or farther than 1e-5 from it
@@ -169,11 +171,6 @@ def _basis_shapes(tier):
     return out
 
 
-def _nonneg_decided(p, mult, clamped):
-    """shapes on which z3 decides the polynomial inequality N[r] >= 0 (see the docstring of basis_values)"""
-    return True
-
-
 @scenario('C03', fns=['helpers.basis_function', 'helpers.basis_function_one', 'helpers.basis_function_all',
                       'helpers.basis_functions', 'helpers.basis_function_ders'],
           quick=lambda: _basis_shapes('quick'), thorough=lambda: _basis_shapes('thorough'))
@@ -199,16 +196,15 @@ def basis_values(ctx, p, mult, clamped, j, where):
     for r in range(p + 1):
         tot = tot + N[r]
     ctx.check_eq('sum_to_one', tot, 1)
-    if _nonneg_decided(p, mult, clamped):
-        for r in range(p + 1):
-            ctx.check('nonneg[%d]' % r, _le(ctx, 0, N[r]), nonlinear=True)
+    for r in range(p + 1):
+        ctx.check('nonneg[%d]' % r, _le(ctx, 0, N[r]), nonlinear=True)
     # single-function variant, every control-point index
     for i in range(n):
         one = hp.basis_function_one(p, list(U), i, u)
         if span - p <= i <= span:
-            ctx.check_eq('basis_function_one[i=span-p+%d]' % (i - span + p), one, N[i - span + p])
+            ctx.check_eq('basis_function_one.in_support[%d]' % (i - span + p), one, N[i - span + p])
         else:
-            ctx.check_eq('basis_function_one[outside_support]', one, 0)
+            ctx.check_eq('basis_function_one.outside_support', one, 0)
     # all-degrees variant
     A = hp.basis_function_all(p, list(U), span, u)
     ctx.check_true('basis_function_all.shape', len(A) == p + 1 and all(len(a) == p + 1 for a in A))
@@ -272,10 +268,10 @@ def basis_ders(ctx, p, mult, clamped, j, where):
             one = hp.basis_function_ders_one(p, list(U), i, u, order)
             ctx.check_true('ders_one(order=%d).len' % order, len(one) == order + 1)
             if inside:
-                ctx.check_eq_vec('ders_one(order=%d)[i=span-p+%d]' % (order, i - span + p), one,
+                ctx.check_eq_vec('ders_one.in_support[%d].order[%d]' % (i - span + p, order), one,
                                  [Dp[k][i - span + p] for k in range(order + 1)])
             else:
-                ctx.check_eq_vec('ders_one[outside_support]', one, [0] * (order + 1))
+                ctx.check_eq_vec('ders_one.outside_support', one, [0] * (order + 1))
     lo = U[p]
     s0 = spec.span_spec(p, U, n, lo)
     L = hp.basis_functions_ders(p, list(U), [span, s0], [u, lo], p)
@@ -324,46 +320,51 @@ def basis_ders_at_end(ctx, p, mult, clamped):
             one = hp.basis_function_ders_one(p, list(U), i, u, order)
             ctx.check_true('ders_one@end(order=%d).len' % order, len(one) == order + 1)
             if inside:
-                ctx.check_eq('ders_one@end(order=%d)[i=span-p+%d].value' % (order, i - span + p), one[0], N[i - span + p])
+                ctx.check_eq('ders_one@end.value[%d]' % (i - span + p), one[0], N[i - span + p])
                 for k in range(1, min(order, smooth) + 1):
-                    ctx.check_eq('ders_one@end(order=%d)[i=span-p+%d][%d]' % (order, i - span + p, k), one[k], Dp[k][i - span + p])
+                    ctx.check_eq('ders_one@end.derivative(k=%d)[%d]' % (k, i - span + p), one[k], Dp[k][i - span + p])
             else:
-                ctx.check_eq_vec('ders_one@end[outside_support]', one, [0] * (order + 1))
+                ctx.check_eq_vec('ders_one@end.outside_support', one, [0] * (order + 1))
 
 
 def _above_shapes(tier):
     out = []
     for p in ((1, 2, 3) if tier == 'quick' else (1, 2, 3, 4, 5)):
         for extra in (1, 2):
-            out.append(dict(p=p, mult=[1] if p < 5 else [], extra=extra))
+            for fn in ('basis_function_ders', 'basis_function_ders_one'):
+                for j, where in ((0, 'open'), (1, 'knot')):
+                    out.append(dict(p=p, mult=[1], extra=extra, fn=fn, j=j, where=where))
     return out
 
 
 @scenario('C03', fns=['helpers.basis_function_ders', 'helpers.basis_function_ders_one'],
           quick=lambda: _above_shapes('quick'), thorough=lambda: _above_shapes('thorough'))
-def basis_ders_above_degree(ctx, p, mult, extra):
-    """derivative orders above the degree ("all derivative orders"): order = p + extra.
-       ensures  basis_function_ders returns min(p, order)+1 = p+1 rows (the documented cap) equal to the order-p result,
-                rows k >= 1 sum to 0;  basis_function_ders_one returns order+1 values: the order-p values followed by 0"""
+def basis_ders_above_degree(ctx, p, mult, extra, fn, j, where):
+    """derivative orders above the degree ("all derivative orders"): order = p + extra, clamped normalised vector.
+       ensures  basis_function_ders returns min(p, order)+1 = p+1 rows (the cap written in the function) equal to the
+                order-p result, rows k >= 1 sum to 0;
+                basis_function_ders_one returns order+1 values: the order-p values followed by zeros"""
     U, inner, n = shapes.make_kv(ctx, p, mult)
-    u = shapes.param_in(ctx, 'u', U[p], U[n])
+    u = _pin_to_span(ctx, p, U, inner, n, j, where)
     hp = ctx.geomdl('helpers')
     span = spec.span_spec(p, U, n, u)
     order = p + extra
-    Dp = hp.basis_function_ders(p, list(U), span, u, p)
-    D = hp.basis_function_ders(p, list(U), span, u, order)
-    ctx.check_true('ders(order>p).rows', len(D) == p + 1)
-    ctx.check_eq_grid('ders(order>p)==ders(order=p)', D, Dp)
-    for k in range(1, p + 1):
-        tot = 0
-        for r in range(p + 1):
-            tot = tot + D[k][r]
-        ctx.check_eq('ders(order>p)[%d].sum_to_zero' % k, tot, 0)
-    for i in range(span - p, span + 1):
-        one_p = hp.basis_function_ders_one(p, list(U), i, u, p)
-        one = hp.basis_function_ders_one(p, list(U), i, u, order)
-        ctx.check_true('ders_one(order>p).len', len(one) == order + 1)
-        ctx.check_eq_vec('ders_one(order>p)[i=span-p+%d]' % (i - span + p), one, list(one_p) + [0] * extra)
+    if fn == 'basis_function_ders':
+        Dp = hp.basis_function_ders(p, list(U), span, u, p)
+        D = hp.basis_function_ders(p, list(U), span, u, order)
+        ctx.check_true('ders(order>p).rows', len(D) == p + 1)
+        ctx.check_eq_grid('ders(order>p)==ders(order=p)', D, Dp)
+        for k in range(1, p + 1):
+            tot = 0
+            for r in range(p + 1):
+                tot = tot + D[k][r]
+            ctx.check_eq('ders(order>p)[%d].sum_to_zero' % k, tot, 0)
+    else:
+        for i in range(span - p, span + 1):
+            one_p = hp.basis_function_ders_one(p, list(U), i, u, p)
+            one = hp.basis_function_ders_one(p, list(U), i, u, order)
+            ctx.check_true('ders_one(order>p).len', len(one) == order + 1)
+            ctx.check_eq_vec('ders_one(order>p).in_support[%d]' % (i - span + p), one, list(one_p) + [0] * extra)
 
 
 # ------------------------------------------------------------------------------------------------
